@@ -128,30 +128,30 @@ theorem source_open_flags_exclusive :
 def fsOld : FS := ⟨[⟨[7], [], 0o644⟩], ⟨some 0, none⟩, [], none, 0o022⟩
 
 /-- without `fsync`: after the rename a power loss can leave an EMPTY destination -/
-theorem no_fsync_unsafe :
+theorem no_fsync_breaks :
     let t := [Ev.openPart true true 0o644, .write [1, 2] 0, .flush, .close, .renamePartDest]
     SafeTrace t = false ∧ ((exec fsOld t).map fun fs => fs.powerDests.contains (some [])) = some true := by decide
 
 /-- renaming before the buffer is flushed: a process death right after the rename leaves an EMPTY destination -/
-theorem rename_before_flush_unsafe :
+theorem rename_before_flush_breaks :
     let t := [Ev.openPart true true 0o644, .write [1, 2] 0, .renamePartDest]
     SafeTrace t = false ∧ (exec fsOld t).map FS.destAfterProcCrash = some (some []) := by decide
 
 /-- writing to the destination directly: a process death between truncation and write leaves it EMPTY,
     one between two writes leaves it TRUNCATED -/
-theorem direct_write_unsafe :
+theorem direct_write_breaks :
     let t := [Ev.truncDest, .writeDest [1], .writeDest [2]]
     SafeTrace t = false ∧ (exec fsOld (t.take 1)).map FS.destAfterProcCrash = some (some []) ∧
       (exec fsOld (t.take 2)).map FS.destAfterProcCrash = some (some [1]) := by decide
 
 /-- without `O_EXCL` a stale part file is re-used and the published content is a MIXTURE -/
-theorem no_excl_unsafe :
+theorem no_excl_breaks :
     let fs0 : FS := ⟨[⟨[7], [], 0o644⟩, ⟨[9, 9], [], 0o640⟩], ⟨some 0, some 1⟩, [], none, 0o022⟩
     let t := [Ev.openPart false true 0o644, .write [1, 2] 0, .flush, .fsync, .close, .renamePartDest]
     SafeTrace t = false ∧ (exec fs0 t).map FS.readDest = some (some [9, 9, 1, 2]) := by decide
 
 /-- a write after the publication is visible at the destination before it is complete -/
-theorem write_after_publish_unsafe :
+theorem write_after_publish_breaks :
     let t := [Ev.openPart true true 0o644, .write [1] 0, .flush, .fsync, .renamePartDest, .write [2] 1]
     SafeTrace t = false ∧ allWrites t = [1, 2] ∧ (exec fsOld (t.take 5)).map FS.destAfterProcCrash = some (some [1]) := by decide
 
